@@ -423,24 +423,26 @@ func configs(th bool) []explore.Config {
 	add := func(st, cs, fib string, depth int) {
 		c = append(c, explore.Config{Name: fmt.Sprintf("leaky %s %s %s", st, cs, fib), MaxDepth: devDepth(depth), MaxDev: -1})
 	}
-	d := 4
-	if th {
-		d = 6
+	if !th {
+		// cheaper configurations first: what they leave of their share goes to the deeper ones
+		add("br", "cs0", "ht", 5)
+		add("mc", "cs0", "ht", 5)
+		add("mc", "cs1", "tree", 6)
+		add("br", "cs1", "tree", 6)
+		return c
 	}
-	add("br", "cs1", "tree", d)
-	add("mc", "cs1", "tree", d)
-	add("br", "cs0", "ht", d)
-	add("mc", "cs0", "ht", d)
-	if th {
-		add("br", "cs1", "ht", d)
-		add("mc", "cs1", "ht", d)
-		add("br", "cs0", "tree", d)
-		add("mc", "cs0", "tree", d)
+	for _, fib := range []string{"tree", "ht"} {
+		for _, cs := range []string{"cs1", "cs0"} {
+			for _, st := range []string{"br", "mc"} {
+				add(st, cs, fib, 7)
+			}
+		}
 	}
 	return c
 }
 
 func main() {
+	fwsim.ReplayIfRequested("C09", "C09.panic", build)
 	explore.Main(explore.Spec{
 		ID: "C09", PanicClause: "C09.panic", Build: build,
 		Configs: configs,
